@@ -4,7 +4,7 @@ from fractions import Fraction
 from engine.driver import poly as P
 from engine.driver.core import Ob, eq, eqs
 from engine.driver.encode import Constraint
-from spec.geomlib import G, EQ, GT, GE, LT, LE, NE, zeros, path_feasible
+from spec.geomlib import G, EQ, GT, GE, LT, LE, NE, zeros, path_feasible, false_twin
 
 ID = "C35"
 HARNESS = "C35_collision.cpp"
@@ -21,7 +21,10 @@ EXPLANATION = ("ContactTracker::{HalfSpaceSphere,SphereSphere,HalfSpaceEllipsoid
 BOUNDS = ("translations of surface 2, sizes and the cutoff free (5-7 real variables) plus one pose angle at a time (quick) or two (thorough); "
           "the other pose angles and the translation of surface 1 and of the common motion pinned at exact Pythagorean/rational base points "
           "(2 quick / 6 thorough); both outcomes (contact / no contact) and the brick's lowest-vertex octants reached by path flipping "
-          "(4-8 paths quick, 16 thorough); cutoff >= 0 and sizes > 0 are hypotheses")
+          "(4-8 paths quick, 16 thorough); cutoff >= 0, sizes > 0, |translation| <= 8 and non-coincident sphere centres are hypotheses; "
+          "half-space/ellipsoid tracker: all pose angles pinned (translations and cutoff free); CollisionDetectionAlgorithm half-space/"
+          "ellipsoid contact path: checked although the curvature computation concretises a value (complex root finder), the asserted "
+          "outputs do not depend on it")
 NOT_COVERED = ("convex-implicit pairs (MPR + Newton with LAPACK), mesh pairs (HalfSpace/Sphere/TriangleMesh-TriangleMesh), "
                "ContactTrackerSubsystem/GeneralContactSubsystem bookkeeping (contact ids, broad phase); the curvature outputs of the "
                "half-space/ellipsoid pair (findParaboloidAtPointWithNormal's principal curvatures; CollisionDetectionAlgorithm's radii via "
@@ -35,24 +38,47 @@ ANGLES = ["A_ax", "A_ay", "A_az", "B_ax", "B_ay", "B_az", "M_ax", "M_ay", "M_az"
 
 def instances(tier, seed):
     out = []
+    # one free pose angle per instance (an angle changed by a flip must be free in every free set of the instance)
+    angs = {"quick": ["A_ay", "B_az"], "thorough": ["A_ax", "A_ay", "A_az", "B_ax", "B_az", "M_ay"]}[tier]
+    k = 0
     for pair in PAIRS:
         for api in ("tracker", "cda"):
             if api == "cda" and pair == "hs_brick":
                 continue
-            out.append(dict(name="%s:%s" % (pair, api), args=[pair, api], paths=4 if pair != "hs_brick" else 8, pair=pair, api=api, tier=tier,
-                            flip_linear_only=False))
-    if tier == "thorough":
-        for i in out:
-            i["paths"] = 16
+            if tier == "quick":
+                # one free angle per (pair, api): alternately an angle of surface 1 and of the common motion (sphere pairs) / surface 2
+                mine = [("A_ay", "M_ax", "A_az", "B_az", "A_ax", "B_ay", "A_ay")[k]]
+                if pair in ("hs_sphere", "sphere_sphere") and mine[0].startswith("B_"):
+                    mine = ["M_az"]
+            else:
+                mine = angs
+            k += 1
+            for a in mine:
+                d = dict(name="%s:%s/%s" % (pair, api, a), args=[pair, api], paths=(4 if pair != "hs_brick" else 8) if tier == "quick" else 16,
+                         pair=pair, api=api, tier=tier, angle=a)
+                if pair == "hs_ellipsoid" and api == "tracker":
+                    # large rotation-dependent branch literals of findParaboloidAtPointWithNormal in the path condition: with a free
+                    # angle every satisfiability query (twins, flips) takes minutes; this pair is covered by the angle-free instance
+                    continue
+                if pair == "hs_ellipsoid" and api == "cda":
+                    # the contact path calls PolynomialRootFinder (complex sqrt: a concretisation event) for the curvature radii only;
+                    # depth, point and normal do not depend on it
+                    d["allow_events"] = True
+                out.append(d)
+    # half-space/ellipsoid tracker: findParaboloidAtPointWithNormal adds large rotation-dependent branch literals to the path
+    # condition; with a free angle z3 answers unknown on the sign clauses, so those are asserted in an instance without a free angle
+    out.append(dict(name="hs_ellipsoid:tracker/lin", args=["hs_ellipsoid", "tracker"], paths=4 if tier == "quick" else 16, pair="hs_ellipsoid",
+                    api="tracker", tier=tier, angle=None))
     return out
 
 
 def free_sets(inst, tr, tier, rng):
-    lin = ["pB_0", "pB_1", "pB_2", "cutoff"] + PAIRS[inst["pair"]]
-    # an angle changed by a flip must be free in every free set: one free set per instance
-    used = [a for a in ANGLES if a in tr.input_by_name]
-    k = 1 if tier == "quick" else 2
-    return [lin + rng.sample(used, k)]
+    if inst["angle"] is None:
+        return [["pB_0", "pB_1", "pB_2", "cutoff"]]
+    if inst["pair"] == "hs_ellipsoid":
+        # square root of the support function + division: few free variables
+        return [["pB_0", "cutoff", inst["angle"]]]
+    return [["pB_0", "pB_1", "pB_2", "cutoff"] + PAIRS[inst["pair"]] + [inst["angle"]]]
 
 
 def input_domain(enc, inst):
@@ -63,6 +89,11 @@ def input_domain(enc, inst):
             cons.append(Constraint(GT, g.inp(n), n + " > 0"))
     if g.is_free("cutoff"):
         cons.append(Constraint(GE, g.inp("cutoff"), "cutoff >= 0"))
+    if inst["pair"] == "sphere_sphere" and g.is_free("pB_0"):
+        # coincident centres are a documented degenerate case (tracker: failure return; CollisionDetectionAlgorithm: "no sensible
+        # way to deal with this", nothing reported)
+        d = [P.sub(g.inp("pB_%d" % i), g.inp("pA_%d" % i)) for i in range(3)]
+        cons.append(Constraint(GT, g.norm2(d), "sphere centres not coincident"))
     for n in ("pB_0", "pB_1", "pB_2"):
         if g.is_free(n):
             cons.append(Constraint(LE, P.sub(g.inp(n), P.const(8)), n + "<=8"))
@@ -105,8 +136,6 @@ def same_contact(g, enc, tag, a, b, names3, names1, mats):
 
 def obligations(enc, inst, tr):
     g = G(enc, tr)
-    if not path_feasible(enc, input_domain(enc, inst)):
-        return []
     pair, api = inst["pair"], inst["api"]
     tag = "%s %s: " % (pair, api)
     X1, X2, XM = Pose(g, "X1"), Pose(g, "X2"), Pose(g, "XM")
@@ -126,10 +155,10 @@ def obligations(enc, inst, tr):
         """margin > 0 <=> closed-form signed distance below the cutoff"""
         if contact:
             obs.append(Ob(tag + name, [Constraint(GE if api == "tracker" else GT, margin, "closed-form distance below cutoff")],
-                          twin=[Constraint(LT, margin, "[twin]")]))
+                          twin=false_twin()))
         else:
             obs.append(Ob(tag + name, [Constraint(LE, margin, "closed-form distance not below cutoff")],
-                          twin=[Constraint(GT, margin, "[twin]")]))
+                          twin=false_twin()))
 
     # the same query after a common rigid motion: same outcome
     obs.append(eq(enc, tag + "a common rigid motion does not change whether a contact is reported", P.const(kind), P.const(kindm), twin=False))
@@ -154,7 +183,7 @@ def obligations(enc, inst, tr):
             depth = g.out("c_depth")
             dist = P.sub(rr, depth)
             obs.append(eq(enc, tag + "(r1+r2-depth)^2 = |c2-c1|^2", g.sq(dist), d2))
-            obs.append(Ob(tag + "r1+r2-depth >= 0", [Constraint(GE, dist, "dist>=0")], twin=[Constraint(LT, dist, "[twin]")]))
+            obs.append(Ob(tag + "r1+r2-depth >= 0", [Constraint(GE, dist, "dist>=0")], twin=false_twin()))
             if api == "tracker":
                 n = g.ov("c_normal")
                 obs.append(eqs(enc, tag + "normal*distance = centre offset in S1; origin = (r1-depth/2) normal; effective radius",
@@ -184,8 +213,10 @@ def obligations(enc, inst, tr):
             depth = g.out("c_depth")
             h = P.sub(depth, p12[0])
             obs.append(eq(enc, tag + "(depth - x_centre)^2 = sum a_i^2 n_i^2 (support function of the ellipsoid)", g.sq(h), h2))
-            obs.append(Ob(tag + "depth - x_centre >= 0", [Constraint(GE, g.clear_pos(h), "h>=0")], hyps=list(g.nonzero), twin=[Constraint(LT, g.clear_pos(h), "[twin]")]))
-            decide("contact reported <=> depth > -cutoff", g.clear_pos(P.add(depth, cutoff)))
+            signs = not (api == "tracker" and inst["angle"] is not None)
+            if signs:
+                obs.append(Ob(tag + "depth - x_centre >= 0", [Constraint(GE, g.clear_pos(h), "h>=0")], hyps=list(g.nonzero), twin=false_twin()))
+                decide("contact reported <=> depth > -cutoff", P.add(depth, cutoff))
             QE_h = [g.mul(g.sq(rad[j]), n[j]) for j in range(3)]          # Q_E * h
             QH_h = g.vadd(mv(g, R12, QE_h), g.vscale(p12, h))             # Q_H * h
             if api == "tracker":
@@ -205,7 +236,7 @@ def obligations(enc, inst, tr):
             m = P.neg(P.add(p12[0], cutoff))
             obs.append(Ob(tag + "no contact reported => support point is at least the cutoff away from the plane",
                           [Constraint(GE, m, "-x_c - cutoff >= 0"), Constraint(GE, P.sub(g.sq(m), h2), "(x_c+cutoff)^2 >= h^2")],
-                          twin=[Constraint(LT, m, "[twin]")]))
+                          twin=false_twin()))
     elif pair == "hs_brick":
         hl = g.ov("h")
         hs = []
@@ -219,11 +250,11 @@ def obligations(enc, inst, tr):
             obs.append(eqs(enc, tag + "depth = penetration of the reported vertex, which is a vertex of the brick",
                            [(depth, P.add(p12[0], g.dot(R12[0], vpos)))] + [(g.sq(vpos[i]), g.sq(hl[i])) for i in range(3)]))
             obs.append(Ob(tag + "no other vertex is lower than the reported one", [Constraint(GE, P.sub(depth, x), "depth >= x_v") for x in hs],
-                          twin=[Constraint(LT, P.sub(depth, hs[0]), "[twin]")]))
+                          twin=false_twin()))
             decide("contact reported <=> lowest vertex height < cutoff", P.add(depth, cutoff))
         else:
             obs.append(Ob(tag + "no contact reported => every vertex is at least the cutoff above the plane",
-                          [Constraint(LE, P.add(x, cutoff), "x_v <= -cutoff") for x in hs], twin=[Constraint(GT, P.add(hs[0], cutoff), "[twin]")]))
+                          [Constraint(LE, P.add(x, cutoff), "x_v <= -cutoff") for x in hs], twin=false_twin()))
     # common rigid motion
     if contact and kindm == kind:
         if api == "tracker":
